@@ -15,7 +15,9 @@ FIRST_ARGS = [  # (source, is plain str literal, executable literal or None, com
     ("'ls ' + arg", False, None, None), ("'ls %s' % arg", False, None, None), ("f'ls {arg}'", False, None, None), ("'ls {}'.format(arg)", False, None, None),
     ("'./run.sh'", True, "./run.sh", "./run.sh"), ("'C:\\\\tool.exe'", True, "C:\\tool.exe", None), ("'tar cf a.tar *'", True, "tar cf a.tar *", "tar cf a.tar *"),
     ("['chown', 'root', '*']", False, "chown", " chown root *"), ("'/bin/chmod 777 *.py'", True, "/bin/chmod 777 *.py", "/bin/chmod 777 *.py"),
-    ("[]", False, None, ""), ("[cmd, '*']", False, None, None), ("'rsync -a src dst'", True, "rsync -a src dst", "rsync -a src dst"), ("b'ls'", False, None, None),
+    ("[]", False, None, ""), ("[cmd, '*']", False, None, None),
+    ("['chown', '-R', owner.name, '*']", False, "chown", " chown -R name *"), ("['tar', archive_name(), '*']", False, "tar", " tar None *"),
+    ("['/bin/chmod', 644, '*']", False, "/bin/chmod", " /bin/chmod 644 *"), ("['rsync', targets[0], '*', None]", False, "rsync", " rsync None * None"), ("'rsync -a src dst'", True, "rsync -a src dst", "rsync -a src dst"), ("b'ls'", False, None, None),
 ]
 USER_CFG = {"subprocess": ["mylib.run", "subprocess.Popen"], "shell": ["mylib.sh", "os.system"], "no_shell": ["mylib.spawn"]}
 FULLPATH = re.compile(r"^(?:[A-Za-z]:|[\\/.])")
